@@ -596,6 +596,16 @@ fn run_shuffle_census_t<E: Clone>(n: usize, kind: usize, seeds: u64, base: u64, 
     let r = catch(|| {
         for i in 0..seeds {
             let mut g = Rng::from_seed(seed_family(kind, i, base));
+            if i % 64 == 0 {
+                // the two lengths for which there is nothing to rearrange
+                let mut none: Vec<E> = Vec::new();
+                lib!(g.shuffle(&mut none));
+                let mut one: Vec<E> = vec![make(0)];
+                lib!(g.shuffle(&mut one[..]));
+                if !none.is_empty() || one.len() != 1 || key(&one[0]) != 0 {
+                    return Err("a shuffle of an empty or one-element slice changed the slice".to_string());
+                }
+            }
             let mut ve: Vec<E> = (0..n as u8).map(make).collect();
             lib!(g.shuffle(&mut ve));
             if base % 2 == 1 {
